@@ -607,7 +607,57 @@ func (s *Schema) FeedType(t *Type, v ref.Val) ref.Val {
 // ---- acceptance relations ----
 
 // AcceptType: does data `in`, fed to the type-level builder of t, conform? Returns the typed value.
+// Strategy names a type's kind and representation strategy.
+func Strategy(t *Type) string {
+	switch t.Kind {
+	case TStruct:
+		return "struct/" + t.SRepr
+	case TUnion:
+		return "union/" + t.URepr
+	case TEnum:
+		return "enum/" + t.ERepr
+	case TMap:
+		return "map"
+	case TList:
+		return "list"
+	case TAny:
+		return "any"
+	}
+	return "scalar"
+}
+
+func at(t *Type, v ref.Val, rej string) (ref.Val, string) {
+	if rej != "" && !strings.Contains(rej, "@") {
+		rej += "@" + Strategy(t)
+	}
+	return v, rej
+}
+
+func wellFormed(v ref.Val) string {
+	seen := map[string]bool{}
+	for _, e := range v.M {
+		if seen[e.K] {
+			return "repeated-key"
+		}
+		seen[e.K] = true
+		if r := wellFormed(e.V); r != "" {
+			return r
+		}
+	}
+	for _, c := range v.L {
+		if r := wellFormed(c); r != "" {
+			return r
+		}
+	}
+	return ""
+}
+
 func (s *Schema) AcceptType(t *Type, in ref.Val) (ref.Val, string) {
+	v, rej := s.acceptType(t, in)
+	return at(t, v, rej)
+}
+
+func (s *Schema) acceptType(t *Type, in ref.Val) (ref.Val, string) {
 	switch t.Kind {
 	case TStruct:
 		if in.K != ref.KMap {
@@ -734,6 +784,9 @@ func (s *Schema) AcceptType(t *Type, in ref.Val) (ref.Val, string) {
 		if in.K == ref.KAbsent || in.K == ref.KInvalid {
 			return ref.Val{}, "wrong-kind"
 		}
+		if r := wellFormed(in); r != "" {
+			return ref.Val{}, r
+		}
 		return in, ""
 	}
 	if in.K != s.ReprKind(t) {
@@ -747,6 +800,11 @@ func (s *Schema) AcceptType(t *Type, in ref.Val) (ref.Val, string) {
 
 // AcceptRepr: does data `in`, fed to the representation builder of t, conform?
 func (s *Schema) AcceptRepr(t *Type, in ref.Val) (ref.Val, string) {
+	v, rej := s.acceptRepr(t, in)
+	return at(t, v, rej)
+}
+
+func (s *Schema) acceptRepr(t *Type, in ref.Val) (ref.Val, string) {
 	switch t.Kind {
 	case TStruct:
 		vals := make([]ref.Val, len(t.Fields))
@@ -974,7 +1032,7 @@ func (s *Schema) AcceptRepr(t *Type, in ref.Val) (ref.Val, string) {
 		}
 		return o, ""
 	}
-	return s.AcceptType(t, in)
+	return s.acceptType(t, in)
 }
 
 // TypeNames sorted, for deterministic iteration.
